@@ -48,20 +48,28 @@ def send_msg(sock, msg, comment=None):
         raise ConnectionClosedError() from e
 
 
+def _recv_exact(sock, size):
+    chunks = []
+    while size:
+        chunk = sock.recv(size)
+        if not chunk:
+            # EOF before the requested number of bytes arrived
+            raise ConnectionClosedError()
+        size -= len(chunk)
+        chunks.append(chunk)
+    return b''.join(chunks)
+
+
 def recv_msg(sock, state_overwrites=None, comment=None):
     try:
-        data_len = struct.unpack('!I', sock.recv(4))[0]
+        data_len = struct.unpack('!I', _recv_exact(sock, 4))[0]
     except (BrokenPipeError, struct.error, ConnectionResetError, ConnectionAbortedError, OSError) as e:
         raise ConnectionClosedError() from e
 
     logger.abusive('Receiving a message: {} ({})', data_len, comment)
-    data = bytes()
     try:
-        while data_len:
-            chunk = sock.recv(data_len)
-            data_len -= len(chunk)
-            data += chunk
-    except (ConnectionResetError) as e:
+        data = _recv_exact(sock, data_len)
+    except (BrokenPipeError, ConnectionResetError, ConnectionAbortedError, OSError) as e:
         raise ConnectionClosedError() from e
     logger.abusive('Message received ({}), deserializing...', comment)
     msg = remote_pickle.loads(data, extra_kwargs=state_overwrites)
